@@ -6,6 +6,7 @@
 -/
 import G9Proofs.Lemmas.KindInv
 import G9Proofs.Lemmas.Users
+import G9Proofs.Lemmas.FidLife
 namespace G9.C04
 open G9 G9.Srv
 
@@ -418,5 +419,26 @@ theorem new_fid_bound_by_request (cfg : Cfg) (impl : Impl) (c : Conn) (t : Msg) 
 example : userAt (run exCfg (Conn.init exCfg)
     [(.tattach 1 NOFID [] [] 7, okImpl), (.twalk 1 2 [[0x61]], okImpl), (.tclunk 1, okImpl)]).1.fids 2
     = some 7 := by decide
+
+
+/-! ### requests running concurrently (model: G9.FidLife, every interleaving of the regions of
+    FidNew, FidGet, retain, IncRef, DecRef, destroy and Conn.close) -/
+
+/-- While the connection is up, a valid fid — one whose creating request succeeded and that has not
+    been clunked or removed — is the fid the table holds under its number, and has not been
+    reported destroyed, whatever else runs on the connection: other requests on the same number,
+    DecRefs of older fids that had the number, requests still creating fids. -/
+theorem valid_fid_found_under_concurrency (es : List FidLife.FEv) (s : FidLife.FS)
+    (h : FidLife.FS.init.run es = some s) (o : Nat) (ho : o < s.n) (ht : (s.obj o).tbl = true)
+    (hs : s.snap = none) : s.pool (s.obj o).num = some o ∧ (s.obj o).destroyed = false := by
+  have h0 := (FidLife.inv_run _ _ es FidLife.inv_init h).objs o ho
+  obtain ⟨a, _, c⟩ := h0.tblOpen ht hs
+  exact ⟨a, c⟩
+
+/-- …and the table never holds anything but a fid object that was created for that number. -/
+theorem table_entry_is_its_number (es : List FidLife.FEv) (s : FidLife.FS)
+    (h : FidLife.FS.init.run es = some s) (k o : Nat) (hp : s.pool k = some o) :
+    o < s.n ∧ (s.obj o).num = k :=
+  (FidLife.inv_run _ _ es FidLife.inv_init h).poolOk k o hp
 
 end G9.C04
